@@ -131,8 +131,16 @@ func init() {
 	}
 
 	// ---- sync/atomic: plain memory in the sequential model ----
-	load := func(fr *frame, args []value) value { return *(args[0].(*value)) }
-	store := func(fr *frame, args []value) value { *(args[0].(*value)) = args[1]; return nil }
+	load := func(fr *frame, args []value) value {
+		p := args[0].(*value)
+		fr.i.spinCheck(p)
+		return *p
+	}
+	store := func(fr *frame, args []value) value {
+		*(args[0].(*value)) = args[1]
+		fr.i.progress++
+		return nil
+	}
 	for _, n := range []string{"LoadUint32", "LoadUint64", "LoadInt64", "LoadInt32", "LoadPointer", "LoadUintptr"} {
 		intrinsics["sync/atomic."+n] = load
 	}
